@@ -60,17 +60,24 @@ def needToSplit (P : Params) (degree sz : Nat) : Bool := decide (sz > P.leaf) &&
 
 /-! ### GreedyKCenters -/
 
+/-- `if ((d = distFun_(data[j], center)) < minDist[j]) minDist[j] = d` (`none` = `+inf`): the new entry. -/
+def minUpd (m : Option D) (d : D) : D :=
+  match m with
+  | none => d
+  | some v => if d < v then d else v
+
+/-- `minDist[j] > maxDist` (`none` = `-inf`). -/
+def newMax (maxD : Option D) (m : D) : Bool :=
+  match maxD with
+  | none => true
+  | some v => decide (m > v)
+
 /-- one pass of the inner `for j` loop: new `minDist`, `ind`, `maxDist` (`none` = `∓inf`). -/
 def kcStep (dist : α → α → D) (center : α) :
     List (Elem α) → List (Option D) → Nat → Nat → Option D → List (Option D) × Nat × Option D
   | x :: xs, m :: ms, j, ind, maxD =>
-    let d := dist x.val center
-    let m' : D := match m with
-      | none => d
-      | some v => if d < v then d else v
-    let upd : Bool := match maxD with
-      | none => true
-      | some v => decide (m' > v)
+    let m' := minUpd m (dist x.val center)
+    let upd := newMax maxD m'
     let r := kcStep dist center xs ms (j + 1) (if upd then j else ind) (if upd then some m' else maxD)
     (some m' :: r.1, r.2)
   | _, _, _, ind, maxD => ([], ind, maxD)
